@@ -168,7 +168,8 @@ def run(ctx):
                     ctx.report("C08-expect-tables", "%s/%s%s" % (name, vn, ("/" + nn) if nn else ""),
                                "%s(%s%s) is %s, expected %s" % (name, vn, ("(" + nn + ")") if nn else "", got, want), where_of(f))
         if not any(v == "TypeMisMatch" for _, _, _, _, v in mir.aggregates(f)):
-            ctx.report("C08-expect-tables", name + "/error-kind", "%s does not build TypeMisMatch" % name, where_of(f))
+            # (the error may be built by a helper: not evidence of anything by itself)
+            ctx.undecided("C08-expect-tables", name + "/error-kind", "%s does not itself build TypeMisMatch (built elsewhere?)" % name, where_of(f))
     ctx.floor("C08-expect-tables", 9 * 10)
 
     # ------------------------------------------------------------------ C08-unbound
@@ -438,28 +439,22 @@ def _straight(f, b, n=12):
 
 def scope_set_rule(ctx, fb):
     f = fb.find("environment::LexicalScope::set")
-    # (1) no insert / define inside set
-    bad = [callee(t) for _, t in f.calls() if callee_matches(t, "HashMap::insert", "LexicalScope::define", "HashMap::entry",
-                                                          "Entry::or_insert", "Entry::or_insert_with")]
-    ctx.inst("C08-unbound", "LexicalScope::set/no-define", {"inserting_calls": bad})
-    if bad:
-        ctx.report("C08-unbound", "LexicalScope::set/defines", "set creates a binding (%s) instead of failing / walking to "
-                   "the defining frame" % bad, where_of(f))
-    # (2) semantics on a chain of three frames (scopes.py): no frame binds the name -> Err and nothing is written
+    # semantics on a chain of three frames (scopes.py): no frame binds the name -> Err(UnboundedSymbol) and nothing is written
     from . import scopes
     for found in scopes.subsets(3):
         r = scopes.walk(fb, "set", found, 3)
         key = "LexicalScope::set/bound-in=%s" % sorted(found)
         ctx.inst("C08-unbound", key, {"result": r.get("result"), "stores": [list(x) for x in r.get("stores", [])], "stuck": r.get("stuck")})
         if "stuck" in r:
-            ctx.report("C08-unbound", key, "cannot follow LexicalScope::set (%s)" % r["stuck"], where_of(f))
+            ctx.undecided("C08-unbound", key, "cannot follow LexicalScope::set (%s)" % r["stuck"], where_of(f))
         elif not found and (r["result"] != "Err" or r["stores"] or r["inserts"]):
             ctx.report("C08-unbound", key, "assigning an unbound name gives %s (stores %s, inserts %s), expected an error and "
                        "no effect" % (r["result"], r["stores"], r["inserts"]), where_of(f))
+        elif not found and "UnboundedSymbol" not in r.get("result_variants", []):
+            ctx.report("C08-unbound", "LexicalScope::set/error-kind", "assigning an unbound name fails with %s, expected UnboundedSymbol" % (
+                [x for x in r.get("result_variants", []) if x not in ("Err", "Located", "None", "Some")],), where_of(f))
         elif found and r["result"] != "Ok":
             ctx.report("C08-unbound", key, "assigning a bound name gives %s, expected Ok" % r["result"], where_of(f))
-    if not any(v == "UnboundedSymbol" for _, _, _, _, v in mir.aggregates(f)):
-        ctx.report("C08-unbound", "LexicalScope::set/error-kind", "set does not build UnboundedSymbol", where_of(f))
 
 
 def div_zero_rule(ctx, fb):
